@@ -18,7 +18,7 @@ from . import core
 from .canon import to_canon, ceq, render, show, from_json, I, R, C, S, Y, L, D, U
 
 LEVEL = "exploration"
-RULE = ("history (<=40 steps, Hypothesis rule-based machine) of set / get / get of a never-set key / reopen (new store "
+RULE = ("history (<=40 steps, Hypothesis rule-based machine) of set / get / get of a never-set key (absent, below a plain file, or a directory of stored keys) / reopen (new store "
         "object on the same directory) / unload / set of a value larger than the limit, through the Python store objects "
         "and through Klong source (kv,[k v], kv?k, :_kv?k), over flat and nested prefix-free key paths and values of every "
         "picklable kind, under a cache limit drawn from {largest single entry, 1.7x, everything}; a second machine does the "
